@@ -241,6 +241,95 @@ def roundtrip_cases(cases):
     return out
 
 
+# ---------------------------------------------------------------------------------------------
+# code -> spec: seeded random programs on a larger lattice, logged and validated by TLC
+def pl6(a, b):
+    return [a[i] * b[j] - a[j] * b[i] for i, j in [(0, 1), (0, 2), (0, 3), (1, 2), (1, 3), (2, 3)]]
+
+
+def record_events(seed: int, n: int, K: int = 4):
+    """Run geometer on random join/meet calls (degenerate ones made frequent) and log what it does."""
+    from ..abstraction import primitive
+    from ..record import Lattice
+
+    import_geometer()
+    lat = Lattice(seed, K)
+    r = lat.r
+    fams = [f for f in FAMS]
+    events = []
+    while len(events) < n:
+        f = r.choice(fams)
+        op, dim, kinds = FAMS[f]
+        args = []
+        for k in kinds:
+            if k == "line3":
+                while True:
+                    a, b = lat.point(4), lat.point(4)
+                    p = pl6(a, b)
+                    if any(p):
+                        break
+                # bias: make the line pass through / lie in an earlier argument, or meet an earlier line
+                if args and r.random() < 0.5:
+                    prev_k, prev = kinds[len(args) - 1], args[-1]
+                    if prev_k == "point":
+                        p2 = pl6(prev, b)
+                        p = p2 if any(p2) else p
+                    elif prev_k == "line3" and "pts" in dir():
+                        c = lat.combo(pts[0], pts[1])
+                        p2 = pl6(c, b) if r.random() < 0.8 else prev
+                        p = p2 if any(p2) else p
+                pts = (a, b)
+                args.append(primitive(p) if r.random() < 0.7 else p)
+            else:
+                v = lat.vec(dim + 1)
+                u = r.random()
+                if args and kinds[len(args) - 1] == k and u < 0.12:
+                    v = lat.multiple(args[-1])
+                elif len(args) == 2 and kinds[0] == kinds[1] == k and u < 0.3:
+                    v = lat.combo(args[0], args[1])
+                elif args and kinds[len(args) - 1] == "line3" and u < 0.4:
+                    # point on the line / plane through the line
+                    a, b = pts
+                    if k == "point":
+                        v = lat.combo(a, b)
+                    else:
+                        m = np.array([a, b])
+                        # plane through a, b and a random third point
+                        c = lat.point(4)
+                        e = [int(round(x)) for x in np.linalg.det(np.array([[*a], [*b], [*c], [1, 0, 0, 0]])) * np.linalg.inv(
+                            np.array([[*a], [*b], [*c], [1, 0, 0, 0]]))[:, 3]] if abs(np.linalg.det(np.array([[*a], [*b], [*c], [1, 0, 0, 0]]))) > 0.5 else v
+                        v = e if any(e) else v
+                args.append(v)
+        objs = [build(k, v) for k, v in zip(kinds, args)]
+        st, res = _call(op, objs)
+        ev = {"f": f, "a": args}
+        if st == "exc":
+            ev.update(e=err_name(res), k="none", v=[0])
+        else:
+            c = project_class(coords_of(res))
+            ev.update(e="none", k=kind_of(res), v=c if c is not None else ["IRRATIONAL"])
+        events.append(ev)
+    return events
+
+
+def validate_trace(ctx: Ctx, events, name="trace"):
+    """TLC decides whether every recorded event is a step of the specification."""
+    from ..record import write_ndjson
+
+    path = ctx.work / f"{name}.ndjson"
+    write_ndjson(path, events)
+    cfg = cfg_text(spec="TraceSpec",
+                   constants={"K2": 1, "K3": 1, "Families": {S("j2pp")}, "DoDump": False, "Stride3": 1,
+                              "StrideLL": 1, "Seed": 0},
+                   invariants=[i for i in INVS if i != "RoundTrip"], constraints=["Report"],
+                   postcondition="TraceAccepted")
+    r = ctx.tlc("Trace_C01", cfg, name=name, workers=1, dump=True, env={"TRACE_FILE": str(path)})
+    reports = list(read_dump(r["dump"]))
+    if not reports or reports[-1]["consumed"] != len(events):
+        raise MachineryError(f"trace validation consumed {reports[-1]['consumed'] if reports else 0} of {len(events)} events")
+    return reports[-1]["bad"]
+
+
 def _work(job):
     kind = job[0]
     try:
@@ -354,6 +443,23 @@ def run(ctx: Ctx) -> int:
             if inscope:
                 ctx.mismatch(m["site"], m["stratum"], m["case"], m["expected"], m["observed"], m["cls"])
     ctx.cov["traces_validated_against_impl"] += nrep
+    # ---- code -> spec
+    nev = 6000 if ctx.tier == "quick" else 60000
+    for part in range(0, nev, 6000):
+        events = record_events(ctx.seed * 1000 + part, min(6000, nev - part), K=4)
+        bad = validate_trace(ctx, events, name=f"trace{part}")
+        ctx.cov["traces_validated_against_impl"] += len(events)
+        ctx.cov["evaluations"] += len(events)
+        ctx.cov.setdefault("trace_events", 0)
+        ctx.cov["trace_events"] += len(events)
+        for l, why in bad:
+            e = events[l - 1]
+            cls_c02 = why.startswith("error-class")
+            if (prop == "C02") == cls_c02 or (prop == "C01" and e["e"] != "none" and "spec none" in why):
+                ctx.mismatch(f"{FAMS[e['f']][0]}({','.join(FAMS[e['f']][2])})/{FAMS[e['f']][1]}D/trace",
+                             "trace:" + why.split(":")[0], e, "a step of C01_JoinMeet!Call", why)
+        if events:
+            ctx.sample({"recorded_event": events[0]})
     for f in list(byfam)[:4]:
         ctx.sample(byfam[f][0])
     return nrep
